@@ -108,6 +108,10 @@ for gk, gc in GENS:
     for sk, sc, sd in SIDES:
         reg('c06_semilegal_gen_%s_%s' % (gk, sk), 'C06', T, 7200, 16, FULL + GEN11 + sd, 'c06::semilegal_gen_exact::<_, %s, %s, 1, 1>' % (sc, gc), 's12', 65, gen_k=(1, 1),
             bounds='GEN(1); generator loops unwound per loop (unwindset derived from cbmc --show-loops)', props=['C06', 'C19', 'C01'])
+for sk, sc, sd in SIDES:
+    reg('c06_semilegal_gen_p1_capture_%s' % sk, 'C06', QT, 2400, 12, FULL + ' + GEN(1 pawn, 0 pieces): mover has king and at most one pawn (opponent arbitrary); capture generator; ' + sd,
+        'c06::semilegal_gen_exact::<_, %s, G_CAPTURE, 1, 0>' % sc, 's12', 65, gen_k=(1, 0),
+        bounds='GEN(1 pawn, 0 pieces): pawn captures, en passant and king captures only', props=['C06', 'C19', 'C01', 'C18'])
 for gk, gc in [('all', 'G_ALL')]:
     for sk, sc, sd in SIDES:
         reg('c06_semilegal_gen_pawns_%s_%s' % (gk, sk), 'C06', QT, 3600, 20, FULL + GEN20 + sd, 'c06::semilegal_gen_exact::<_, %s, %s, 2, 0>' % (sc, gc), 's12', 65, gen_k=(2, 0),
@@ -368,7 +372,7 @@ THOROUGH = {
     'C04': ['c03_make_unmake_*', 'c04_nested_w_ep', 'c04_nested_b_castling', 'c13_chain_push_pop_s0_p0_castling', 'c13_chain_push_pop_s1_p0_ep', 'c17_walker_s0_p3_concrete_n_1'],
     'C05': ['c05_hash_features', 'c05_scratch_hash_def', 'c05_hash_delta_*', 'c03_make_unmake_?_pspecial', 'c03_make_unmake_?_ep', 'c03_make_unmake_?_castling',
             'c11_validate_normal_w'],
-    'C06': ['c06_wellformed_exact', 'c06_semilegal_validator_*', 'c06_semilegal_gen_pawns_all_?', 'c06_semilegal_gen_all_w', 'c06_semilegal_gen_capture_b'],
+    'C06': ['c06_wellformed_exact', 'c06_semilegal_validator_*', 'c06_semilegal_gen_pawns_all_?', 'c06_semilegal_gen_p1_capture_?', 'c06_semilegal_gen_all_w', 'c06_semilegal_gen_capture_b'],
     'C07': ['c07_outcome_classification_*', 'c07_outcome_lone_king_?', 'c07_castling_never_only_move_?'],
     'C09': ['c09_san_simple_pawn_refused', 'c09_san_into_move_castling_?', 'c09_san_into_move_uci_w', 'c09_san_into_move_pawnmove_b', 'c09_san_into_move_pawncapture_w',
             'c09_san_from_move_w_ep', 'c09_san_from_move_b_castling', 'c12_san_parse_total_5', 'c12_san_parse_total_7'],
@@ -386,7 +390,7 @@ THOROUGH = {
     'C16': ['c16_*'],
     'C17': ['c17_walker_s5_p3_concrete_nne_1', 'c17_walker_s0_p3_concrete_n_1', 'c17_walker_s0_p3_concrete_ep_1'],
     'C18': ['c18_mirror_move_v_?_ep', 'c18_mirror_move_v_?_castling', 'c18_mirror_move_v_w_king', 'c18_mirror_move_v_b_pspecial', 'c18_mirror_move_v_w_queen',
-            'c18_mirror_move_h_w_pspecial', 'c18_mirror_move_h_b_ep', 'c18_mirror_outcome_*', 'c06_semilegal_gen_pawns_all_?'],
+            'c18_mirror_move_h_w_pspecial', 'c18_mirror_move_h_b_ep', 'c18_mirror_outcome_*', 'c06_semilegal_gen_pawns_all_?', 'c06_semilegal_gen_p1_capture_?'],
     'C19': ['c15_bishop_exact', 'c15_rook_exact', 'c05_scratch_hash_def', 'c16_attackers_exact_w_*', 'c16_check_queries_exact_b', 'c06_semilegal_validator_?_castling',
             'c06_semilegal_validator_?_ep', 'c06_semilegal_validator_w_queen', 'c06_semilegal_validator_b_pspecial', 'c03_make_unmake_?_pspecial',
             'c03_make_unmake_?_castling', 'c03_make_unmake_w_ep', 'c06_semilegal_gen_pawns_all_?', 'c11_validate_accept_?', 'c01_prefiltered_w_queen'],
